@@ -324,6 +324,13 @@ type Call struct {
 	Node  string `json:"node"`
 	Field string `json:"field"`
 	Args  ValMap `json:"args"`
+	Via   string `json:"via,omitempty"` // actual side: which strategy served the call
+}
+
+// MixSpec assigns a kind to every node of a mixed graph (C02).
+type MixSpec struct {
+	Assign map[string]string `json:"assign"`
+	Any    bool              `json:"any"`
 }
 
 type Response struct {
@@ -344,6 +351,8 @@ type Case struct {
 	Exp    *Response  `json:"exp,omitempty"`
 	ExpK   *Response  `json:"expK,omitempty"`
 	KDevs  []string   `json:"kdevs,omitempty"` // known deviations that change this case
+	Mix    *MixSpec   `json:"mix,omitempty"`
+	Via    []string   `json:"via,omitempty"` // mixed graphs: strategy that must serve each expected call
 }
 
 // ---------------------------------------------------------------- rendering
